@@ -125,7 +125,7 @@ def run(facts, cg):
         'bita::clone_cmd::clone_cmd': {'mutating': {('tokio::fs::file::File::set_len', 'bita::clone_cmd::clone_archive')}, 'write_paths': {'opts.output'}},
         'bita::compress_cmd::compress_cmd': {'mutating': {('std::fs::remove_file', 'bita::compress_cmd::compress_cmd'),
                                                            ('tokio::fs::remove_file::remove_file', 'bita::compress_cmd::compress_cmd')},
-                                             'write_paths': {'opts.output', 'temp_file_path'}},
+                                             'write_paths': {'opts.output', 'opts.temp_file'}},
         'bita::info_cmd::info_cmd': {'mutating': set(), 'write_paths': set()},
     }
     # semantic anchors instead of function names where the role can be discovered:
@@ -147,6 +147,9 @@ def run(facts, cg):
         for bid in sorted(reach):
             b = facts.bodies[bid]
             for ch in chains(b):
+                if ch.get('path_op') is not None:
+                    from .r_openflags import resolved_paths
+                    ch['path'] = '|'.join(sorted(resolved_paths(facts, cg, b, ch['path_op'])))
                 effs = set().union(*[r[1] for r in ch['table']]) if ch['table'] else set()
                 if effs & {'write', 'append', 'create', 'create_new', 'truncate'} or not ch['complete']:
                     wpaths.append((ch['path'], ch['at'], b.q))
